@@ -70,6 +70,9 @@ def deviations(hist: History, max_dev: Any) -> List[Tuple[History, Dict[str, Any
         single.append(("scale", sc))
     for sc in PRICE_SCALES:
         single.append(("pscale", sc))
+    for i, item in enumerate(hist):
+        if item[0][0] == "B":
+            single.append(("lotfee", i))  # a large fiat fee on this purchase: cost per unit changes, spot price (the ranking feature) does not
 
     def apply(devs: Sequence[Tuple[str, Any]]) -> Optional[Tuple[History, Dict[str, Any], str]]:
         items = [list(it) + ([0] if len(it) < 3 else []) for it in hist]
@@ -96,6 +99,12 @@ def deviations(hist: History, max_dev: Any) -> List[Tuple[History, Dict[str, Any
                     return None
                 touched.add("scale")
                 opts["scale"] = arg
+            elif kind == "lotfee":
+                if ("lotfee", arg) in touched:
+                    return None
+                touched.add(("lotfee", arg))
+                b = items[arg][0]
+                items[arg][0] = H.B(b[1], b[2], b[3], b[4], 0, 50)
             elif kind == "pscale":
                 if "pscale" in touched:
                     return None
